@@ -9,7 +9,7 @@ Core Lean only; nothing here mentions how rare computes anything.
   (`propBar`): never more than `maxLen`, growing with `val`;
 * the visible width of a text is the number of its runes outside colour sequences (`visLen`);
 * rows of a table are aligned when every cell starts at the same visible offset in every row
-  (`Aligned` over the visible offsets of the cells);
+  (`Aligned`: one list of column offsets serves every rendered row, `CellAt`);
 * a "(n more)" note shows `total - shown` (`notShown`).
 -/
 namespace Rare.C14.Spec
@@ -29,6 +29,18 @@ padded cells (each followed by one blank) -/
 def offsets : List Nat → Nat → List Nat
   | [], _ => []
   | w :: rest, at_ => at_ :: offsets rest (at_ + w + 1)
+
+/-- `cell` is on `line`, starting at visible offset `off` and over before `next`:
+`line = pre ++ cell ++ post` where `pre` is `off` cells wide -/
+def CellAt (width : Bytes → Int) (line cell : Bytes) (off next : Int) : Prop :=
+  ∃ pre post, line = pre ++ cell ++ post ∧ width pre = off ∧ off + width cell < next
+
+/-- rows of a table, each given as (its displayed cells, its rendered line), are aligned: ONE increasing
+list of column offsets serves every row – column `k` starts at the same visible offset in every row in
+which it appears, and every cell is over before the next column starts -/
+def Aligned (width : Bytes → Int) (rows : List (List Bytes × Bytes)) : Prop :=
+  ∃ offs : Nat → Int, offs 0 = 0 ∧ (∀ k, offs k < offs (k + 1)) ∧
+    ∀ p ∈ rows, ∀ (k : Nat) (cell : Bytes), p.1[k]? = some cell → CellAt width p.2 cell (offs k) (offs (k + 1))
 
 /-- items that do not fit -/
 def notShown (total shown : Nat) : Nat := total - shown
